@@ -92,13 +92,14 @@ def seqRun (o : Oracle Nat Nat) : Entry Nat Nat → List (Int × Option (Ev Nat 
 
 /-! ### concurrent runs -/
 
-def parseLabel (j : Json) : R (Tid × Label) := do
+def parseLabel (j : Json) : R (Tid × Option Label) := do
   match (← arr j) with
-  | [t, .str "acqU"] => return (← t.getNat?, .acqU)
-  | [t, .str "relU"] => return (← t.getNat?, .relU)
-  | [t, .str "acqA"] => return (← t.getNat?, .acqA)
-  | [t, .str "relA"] => return (← t.getNat?, .relA)
-  | [t, .str "send", c] => return (← t.getNat?, .send (← c.getNat?))
+  | [t, .str "end"] => return (← t.getNat?, none)
+  | [t, .str "acqU"] => return (← t.getNat?, some .acqU)
+  | [t, .str "relU"] => return (← t.getNat?, some .relU)
+  | [t, .str "acqA"] => return (← t.getNat?, some .acqA)
+  | [t, .str "relA"] => return (← t.getNat?, some .relA)
+  | [t, .str "send", c] => return (← t.getNat?, some (.send (← c.getNat?)))
   | _ => throw s!"bad label {j.compress}"
 
 def expand (p : Pid) : Option (Ev Nat Nat) × Bool → List (Op Nat Nat)
@@ -117,11 +118,12 @@ def advance (c : Cfg Nat Nat) (s : Sys Nat Nat) (t : Tid) (pending : Bool) : Exc
 
 /-- follow the recorded label sequence: an entry `(t, l)` means "thread `t` arrived at the primitive `l`";
 the primitive itself takes effect when the thread is scheduled next (vlib.sched yields BEFORE the effect) -/
-def follow (c : Cfg Nat Nat) : Sys Nat Nat → List Tid → List (Tid × Label) → Except String (Sys Nat Nat × List Tid)
+def follow (c : Cfg Nat Nat) : Sys Nat Nat → List Tid → List (Tid × Option Label) → Except String (Sys Nat Nat × List Tid)
   | s, pend, [] => .ok (s, pend)
   | s, pend, (t, l) :: rest => do
     let s' ← advance c s t (pend.contains t)
-    if nextLabel s' t = some l then follow c s' (if pend.contains t then pend else t :: pend) rest
+    if nextLabel s' t = l ∧ (l.isSome ∨ finished s' t) then
+      follow c s' (if l.isNone then pend.filter (· != t) else if pend.contains t then pend else t :: pend) rest
     else throw s!"thread {t}: implementation arrived at {repr l}, model is at {repr (nextLabel s' t)}"
 
 /-- after the last label every thread runs to its end; releases may be needed before a blocked acquire -/
